@@ -22,7 +22,7 @@ def standard_items(tier, rng, scratch, out, budget, extra_generators=()):
         nid[0] += 1
         items.append([nid[0], text, ver, origin])
 
-    share = max(1000, budget // 7)
+    share = max(1000, budget // 8)
     starts = ['f"', "f'", 'f"""', "rf'"]
     for i, s in enumerate(_take(strs, share, rng)):
         add(s, VERSIONS[i % 9], 'strings')
@@ -38,6 +38,22 @@ def standard_items(tier, rng, scratch, out, budget, extra_generators=()):
         add(inputs.vary(s, rng), rng.choice(VERSIONS), 'class-walk')
     for s in inputs.pool_strings(share, rng, maxlen=20):
         add(s, rng.choice(VERSIONS), 'pool')
+    # grammar sentences: one shortest sentence through every arc of every DFA (all versions), two spellings
+    from . import parserb, pgen_export
+    arcs = []
+    for v in VERSIONS:
+        rec, _ = pgen_export.grammar_record(pgen_export.grammar_text(v))
+        sents, n_arcs = parserb.arc_cover(rec)
+        for sent in sents:
+            t1 = parserb.render(sent)
+            if t1 is not None:
+                arcs.append((t1, v))
+                t2 = parserb.render(sent, rng=rng, vary=True, newline='\r\n')
+                if t2 and t2 != t1:
+                    arcs.append((t2, v))
+    out.cov(grammar_arc_sentences=len(arcs))
+    for t, v in _take(arcs, share, rng):
+        add(t, v, 'grammar-arcs')
     for gen in extra_generators:
         for text, ver, origin in gen(share):
             add(text, ver, origin)
